@@ -9,6 +9,17 @@ EXTENDS Builtin, TLC, Json, IOUtils
 VARIABLE l
 Rec == ndJsonDeserialize(IOEnv.TRACE)
 D(e) == TypeTable[e.ty]
+(* the encoding of a value of one type decoded as another type (events "cross"): where the other type accepts the item, the value  *)
+(* it returns denotes the same data item - for the types whose acceptance is exact.  Not exact by design, and left out: sets and   *)
+(* maps (duplicates collapse, order is the collection's), f64 (reads narrower floats), durations (nanoseconds carry), a bare Tag,   *)
+(* and the range types, which are read like derived structs (fields by position, surplus elements ignored).                        *)
+RECURSIVE Exact(_)
+Exact(d) == CASE d.d \in {"int", "bool", "char", "f32", "text", "bytes", "cstr", "unit"} -> TRUE
+              [] d.d \in {"f64", "map", "tag"} -> FALSE
+              [] d.d \in {"opt", "tagged"} -> Exact(d.e)
+              [] d.d = "var"   -> \A i \in 1..Len(d.alts) : Exact(d.alts[i])
+              [] d.d = "seq"   -> ~d.set /\ ~d.unordered /\ Exact(d.e)
+              [] d.d = "tuple" -> ~d.dur /\ ~d.lax /\ \A i \in 1..Len(d.es) : Exact(d.es[i])
 DecIs(o, v, n) == o.p = "run" /\ o.dec_ok /\ o.dec = v /\ o.pos = n
 Why(e) ==
    CASE e.name = "rt" ->
@@ -20,6 +31,12 @@ Why(e) ==
           IF ~(WellFormedItem(e.alt) /\ Tree(e.alt) = Tree(e.bytes)) THEN "HARNESS"  \* the re-framing itself is wrong
           ELSE IF ~HasIndef(e.alt, 0) THEN (IF DecIs(e.obs, e.val, Len(e.alt)) THEN "ok" ELSE "alt")       \* C04: any head width
           ELSE IF e.obs.p = "run" /\ (~e.obs.dec_ok \/ DecIs(e.obs, e.val, Len(e.alt))) THEN "ok" ELSE "alt"   \* never a different value
+     [] e.name = "cross" ->                                                         \* C04: a type that does not match the shape fails, never another value
+          IF e.obs.p # "run" THEN "cross"
+          ELSE IF ~e.obs.dec_ok \/ ~Exact(D(e)) THEN "ok"
+          ELSE IF e.obs.pos = Len(e.bytes) /\ Tree(EncV(D(e), e.obs.dec)) = Tree(e.bytes) THEN "ok" ELSE "cross"
+     [] e.name = "prefix" ->                                                        \* C04: a strict prefix of a value's encoding fails with the end-of-input class
+          IF e.obs.p = "run" /\ ~e.obs.dec_ok /\ e.obs.cls = "eoi" /\ e.cut < Len(e.bytes) THEN "ok" ELSE "prefix"
      [] e.name = "toklen" -> IF e.len = Len(e.bytes) THEN "ok" ELSE "len"             \* C07 for Token values
      [] e.name = "mut" ->
           IF e.obs.p = "run" /\ e.obs.pos <= Len(e.buf) /\ e.obs.alloc <= 256 * Len(e.buf) + 16384 THEN "ok" ELSE "mut"   \* C02: totality
